@@ -353,20 +353,22 @@ Section WithOracles.
     match x with
     | VNum (NInt z) => Ok (NInt z)                    (* isinstance(number, int) *)
     | VNum (NBool b) => Ok (NBool b)                  (* bool is an int: returned as it is *)
-    | VNum (NFlt m e) =>
+    | VNum (NFlt m e) =>                              (* finite float: round(x) == x, then int(x) *)
         match flt_integral m e with
         | Some z => Ok (NInt z)
         | None => err_at ws "NotInteger" []
         end
     | VNum NNegZero => Ok (NInt 0)
-    | VNum (NInf _) => Crash (s_ "OverflowError")     (* round(inf) *)
-    | VNum NNaN => Crash (s_ "ValueError")            (* round(nan) *)
-    | _ => err_at ws "NotInteger" []
+    | _ => err_at ws "NotInteger" []                  (* inf, nan (math.isfinite fails), non-numbers *)
     end.
 
   Definition float_from_number (x:nv) (ws:list word) : res num :=
     match x with
-    | VNum (NInt z) => float_of_Z z
+    | VNum (NInt z) =>                                (* try: float(number) except OverflowError: pass *)
+        match float_of_Z z with
+        | Ok f => Ok f
+        | _ => err_at ws "NotFloat" []
+        end
     | VNum (NBool b) => Ok (norm_flt (b2z b) 0)
     | VNum n => Ok n
     | _ => err_at ws "NotFloat" []
@@ -383,16 +385,17 @@ Section WithOracles.
     | _ => do n <- x_from_number isint r ws; Ok (SVNum n)
     end.
 
-  (* _check_value_base._check_value ; the error message formats the value and the bound *)
+  (* _check_value_base._check_value: not (value >= value_min) / not (value <= value_max), so a NaN on
+     either side is refused; the error message formats the value and the bound *)
   Definition bound_err (isint:bool) (kind:string) (v b:num) (ows:option (list word)) : res unit :=
     do _ <- value_fmt_ok isint v; do _ <- value_fmt_ok isint b; err_at_opt ows kind [].
   Definition check_value (isint:bool) (lo hi:option num) (v:num) (ows:option (list word)) : res unit :=
     do _ <- match lo with
-            | Some b => if num_lt v b then bound_err isint "BelowMin" v b ows else Ok tt
+            | Some b => if negb (num_le b v) then bound_err isint "BelowMin" v b ows else Ok tt
             | None => Ok tt
             end;
     match hi with
-    | Some b => if num_lt b v then bound_err isint "AboveMax" v b ows else Ok tt
+    | Some b => if negb (num_le v b) then bound_err isint "AboveMax" v b ows else Ok tt
     | None => Ok tt
     end.
 
